@@ -154,14 +154,15 @@ class C18(Check):
                   "reset(), the defaulted moves, optional's copy/assign/dereference bodies — is modelled and proved, and is tied to "
                   "the code only by the driver: the per-type constructor/destructor counters and the 'which destructor type ran on "
                   "which object' record are the only thing that sees a wrong cast in the deleter. The correspondence is "
-                  "bounded-exhaustive (all applicable sequences to depth 4 over a pool of 3 pointers + a vector, 2 types; optional "
-                  "to depth 3) + sampled (random to length 20), not proved. The model has ONE function per optional operation; the C++ overload "
+                  "bounded-exhaustive (quick: all applicable sequences to depth 4 over a pool of 2 pointers + a vector and to depth 3 "
+                  "over a pool of 3, 2 types; thorough: depth 4 over a pool of 3; optional to depth 3) + sampled (random to length 20), not proved. The model has ONE function per optional operation; the C++ overload "
                   "set (const T& / T&& / copy operations) and the source's value category (const lvalue, non-const lvalue, rvalue) and "
                   "payload type (bool, int, constructible-from-anything, convertible-from-bool, std::string, counting type) — i.e. which "
                   "overload is actually selected — are distinguished only by the driver. Leaks: allocator bytes are compared before/after every case and LeakSanitizer confirms any growth.")
-    rule = ("quaint_ptr: every applicable operation sequence of depth 4 (thorough: also depth 5 on a pool of 2 and depth 4 with 3 types) "
+    rule = ("quaint_ptr: every applicable operation sequence of depth 4 on a pool of 2 pointers and of depth 3 on a pool of 3 (thorough: "
+            "also depth 4 on a pool of 3 and depth 4 on a pool of 2 with 3 types) "
             "over {make<T>, default-construct, move-construct, move-assign (incl. self), reset, p = nullptr (also on a vector "
-            "element), std::swap (incl. with itself), destroy, push_back(move), reserve, pop_back, clear, move out of vector} on a pool of 3 pointers + one std::vector<quaint_ptr>, then random sequences of length 12-20 (biased to "
+            "element), std::swap (incl. with itself), destroy, push_back(move), reserve, pop_back, clear, move out of vector} + one std::vector<quaint_ptr>, then random sequences of length 12-20 (biased to "
             "applicable operations) and fully random ones (inapplicable operations must be skipped identically); optional: every "
             "sequence of depth 3 over {assign value, construct from value, copy-assign (incl. self), copy-construct, assign empty, "
             "default-construct, read} on 2 optionals of a counting type, every sequence of depth 2 over the same operations with the source offered as "
@@ -177,13 +178,15 @@ class C18(Check):
     def cases(self, tier, rng):
         quick = tier == "quick"
         # (i) exhaustive, applicable-only
-        for seq in q_exhaustive(3, 2, 2, 4):
-            yield q_case(3, seq), "q-exh4-pool3"
+        for seq in q_exhaustive(2, 2, 2, 4):
+            yield q_case(2, seq), "q-exh4-pool2"
+        for seq in q_exhaustive(3, 2, 2, 3):
+            yield q_case(3, seq), "q-exh3-pool3"
         if not quick:
-            for seq in q_exhaustive(2, 2, 2, 5):
-                yield q_case(2, seq), "q-exh5-pool2"
-            for seq in q_exhaustive(3, 3, 1, 4):
-                yield q_case(3, seq), "q-exh4-3types"
+            for seq in q_exhaustive(3, 2, 2, 4):
+                yield q_case(3, seq), "q-exh4-pool3"
+            for seq in q_exhaustive(2, 3, 2, 4):
+                yield q_case(2, seq), "q-exh4-pool2-3types"
         oa = o_alphabet(2, ["", "a"], full=False)
         for seq in itertools.product(oa, repeat=3):
             yield o_case("c", 2, list(seq)), "o-exh3-counting"
